@@ -126,6 +126,7 @@ package handshake
 //@   ensures [first-sent] a.firstSentWithCurrentKey == ite(old(a.firstSentWithCurrentKey) == -1, pn, old(a.firstSentWithCurrentKey))
 //@   ensures [count] a.numSentWithCurrentKey == old(a.numSentWithCurrentKey) + 1
 //@   ensures [phase-kept] a.keyPhase == old(a.keyPhase)
+//@   ensures [nonce-is-the-full-64-bit-packet-number] called("(bigEndian).PutUint64") == 1 && callarg("(bigEndian).PutUint64", 0, 2) == uint64(pn) && len(callarg("(bigEndian).PutUint64", 0, 1)) == 8
 //@   modifies a.firstSentWithCurrentKey, a.firstPacketNumber, a.numSentWithCurrentKey, a.nonceBuf[*], dst[*]
 
 //@ func (a *updatableAEAD) SetLargestAcked
